@@ -1735,6 +1735,15 @@ impl DistributedTxCoordinator {
 
         let from_phase = tx.phase;
 
+        // The logged move to Committing is the commit decision (recovery completes such a
+        // transaction as committed); it is never overturned afterwards.
+        if matches!(from_phase, TxPhase::Committing | TxPhase::Committed) {
+            tracing::warn!(tx_id = tx_id, from_phase = ?from_phase, "Abort refused: commit already decided");
+            return Err(ChainError::TransactionFailed(format!(
+                "transaction {tx_id} has already decided to commit"
+            )));
+        }
+
         tracing::warn!(
             tx_id = tx_id,
             from_phase = ?from_phase,
@@ -1793,7 +1802,10 @@ impl DistributedTxCoordinator {
         let mut pending = self.pending.write();
         let timed_out: Vec<_> = pending
             .iter()
-            .filter(|(_, tx)| tx.is_timed_out())
+            // a transaction whose commit is decided is completed, not timed out
+            .filter(|(_, tx)| {
+                tx.is_timed_out() && !matches!(tx.phase, TxPhase::Committing | TxPhase::Committed)
+            })
             .map(|(id, _)| *id)
             .collect();
 
